@@ -148,3 +148,46 @@ Print Assumptions C09_earlier_pairing_unchanged.
 Print Assumptions C09_detail_table_unchanged.
 Print Assumptions C09_closed_years.
 Print Assumptions C09_later_transactions_change_nothing.
+
+(** * From the rows.  [rows_extend_after T h h2] (Model/FromRowsSpec.v): the raw history [h] is [h2] without its rows dated after
+    the instant [T] (rows keep ids and order; the added rows may stand anywhere in the tables).  Both histories are
+    [built_history] (Proofs/ComputeTotal.v; spelled out in Properties/C01.v): the well-formedness of BOTH matcher inputs is derived
+    from hypotheses about the rows, not assumed; [distinct_row_ids]: row ids pairwise distinct across the tables.
+    The constructed, time-sorted sets of [h2] extend those of [h] ([extends_after]); the fractions of [h] are an initial segment of
+    the fractions of [h2], the added fractions belong to added events; a history that fails keeps failing with the same error. *)
+From RP2V Require Import Model.FromRowsSpec Proofs.L4Examples Proofs.ComputeTotal Proofs.FromRows Proofs.FromRowsExamples.
+
+Theorem C09_prefix_stable_from_rows : forall T sched h t h2 t2,
+  built_history sched h t -> built_history sched h2 t2 -> rows_extend_after T h h2 -> distinct_row_ids h2 ->
+  extends_after T t t2 /\
+  exists evs evs2, taxable_events t = Ok evs /\ taxable_events t2 = Ok evs2 /\
+  match fractions_of gen_always_repush sched t with
+  | Ok fs1 => forall fs2, fractions_of gen_always_repush sched t2 = Ok fs2 ->
+                exists fsX, fs2 = fs1 ++ fsX /\ forall f, In f fsX -> exists x, In x evs2 /\ T < t_us x /\ t_row x = f_ev f
+  | Err e => fractions_of gen_always_repush sched t2 = Err e
+  end.
+Proof. exact prefix_stable_from_rows. Qed.
+
+(** ... and with the pairing everything computed for the earlier events: the detail table and the running sums of the earlier run
+    are initial segments of the later run's, the yearly lines of every year the added events do not touch are identical *)
+Theorem C09_later_rows_change_nothing : forall T period from_day to_day allow allow2 exs hos sched h t h2 t2 cd cd2,
+  built_history sched h t -> built_history sched h2 t2 -> rows_extend_after T h h2 -> distinct_row_ids h2 ->
+  compute_tax period from_day to_day allow exs hos sched t = Ok cd ->
+  compute_tax period from_day to_day allow2 exs hos sched t2 = Ok cd2 ->
+  exists ext, cd_all_gls cd2 = cd_all_gls cd ++ ext /\
+    (forall g, In g ext -> T < t_us (g_ev g)) /\
+    (exists rest, cd_gl_running cd2 = cd_gl_running cd ++ rest) /\
+    forall Y, (forall g, In g ext -> Y < g_year g) ->
+      filter (fun L => y_year L <=? Y) (cd_yearly cd) = filter (fun L => y_year L <=? Y) (cd_yearly cd2).
+Proof. exact later_rows_change_nothing. Qed.
+
+(** non-vacuity (Proofs/FromRowsExamples.v): history A without / with its 2021 sale; [hA_prefix_instance], [hA_later_rows_instance]
+    instantiate the two theorems; the later run has one more fraction *)
+Theorem C09_from_rows_nonvacuous :
+  built_history schedA hA' tA' /\ built_history schedA hA tA /\ rows_extend_after T500 hA' hA /\ distinct_row_ids hA /\
+  exists fs', fractions_of gen_always_repush schedA tA' = Ok fs' /\ length fs' = 6%nat /\ length fsA = 7%nat.
+Proof. exact c09_from_rows_nonvacuous. Qed.
+
+Print Assumptions C09_prefix_stable_from_rows.
+Print Assumptions C09_later_rows_change_nothing.
+Print Assumptions C09_from_rows_nonvacuous.
